@@ -174,4 +174,33 @@ theorem fromMIToNested_rowOrder [DecidableEq ν] (M M' : MI ν α) (k : Bool)
     exact hfold (fun col => ((M.rows.map (·.1.1)).eraseDups).map (fun id => mkCell k (xsCol lv id col))) cols
   rw [hf, hf, key]
 
+/-- `from_multi_index_to_3d_numpy` (since fix 319b294) groups the rows per instance before the reshape: two
+frames with the same level / column names, the same instances in the same order of first appearance, the
+same number of distinct time labels and, for every instance, the same rows in the same order give the
+same array, however the rows of different instances are interleaved -/
+theorem fromMITo3d_rowOrder (M M' : MI ν α)
+    (h1 : M'.inst = M.inst) (h2 : M'.time = M.time) (h3 : M'.names = M.names)
+    (hne : M.inst ≠ M.time)
+    (hids : (M'.rows.map (·.1.1)).eraseDups = (M.rows.map (·.1.1)).eraseDups)
+    (hT : ((M'.rows.map (·.1.2)).eraseDups).length = ((M.rows.map (·.1.2)).eraseDups).length)
+    (hxs : ∀ id, xsCol (M'.rows.map (·.1.1)) id (M'.rows.map (·.2))
+                = xsCol (M.rows.map (·.1.1)) id (M.rows.map (·.2))) :
+    fromMITo3d M' (some M.inst) (some M.time) = fromMITo3d M (some M.inst) (some M.time) := by
+  have hI : levelVals M M.inst = .ok (M.rows.map (·.1.1)) := by
+    simp [levelVals, hne, pure, Except.pure]
+  have hI' : levelVals M' M.inst = .ok (M'.rows.map (·.1.1)) := by
+    simp [levelVals, h1, h2, hne, pure, Except.pure]
+  have hTm : levelVals M M.time = .ok (M.rows.map (·.1.2)) := by
+    simp [levelVals, hne, Ne.symm hne, pure, Except.pure]
+  have hTm' : levelVals M' M.time = .ok (M'.rows.map (·.1.2)) := by
+    simp [levelVals, h1, h2, hne, Ne.symm hne, pure, Except.pure]
+  have hG : groupRows (M'.rows.map (·.1.1)) (M'.rows.map (·.2))
+      = groupRows (M.rows.map (·.1.1)) (M.rows.map (·.2)) := by
+    unfold groupRows
+    rw [hids]
+    congr 1
+    exact List.map_congr_left (fun id _ => hxs id)
+  unfold fromMITo3d
+  simp only [hI, hI', hTm, hTm', bind, Except.bind, hG, hids, hT, h3]
+
 end SkVerif.Panel.Lem
